@@ -1153,3 +1153,60 @@ Fixpoint run_ops_result (xs : list op) : M file unit :=
   match xs with [] => ret tt | x :: t => try (run_op_result x) ;; run_ops_result t end.
 
 Definition panics {S A} (r : outcome S A) : bool := match r with PANIC => true | _ => false end.
+
+(* ------------------------------------------------------------------ *)
+(* Well-formed shapes: what the constructors (NewBatch, NewBatch<SEC>, NewIATBatch, AddEntry), the reader
+   and FileFromJSON establish.  A batch has its header, the control that matches its SEC code (ADV batches
+   carry the ADVBatchControl, the others the BatchControl — the other one may be nil), no nil entry and no
+   nil Addenda05; an IAT batch has header and control, no nil entry, no nil Addenda17/18 (the mandatory
+   addenda 10-16 may be missing: validation reports them).  A file holds no nil Batcher. *)
+Definition all_true (l : list bool) : bool := forallb (fun x => x) l.
+Definition present {A} (x : option A) : bool := match x with Some _ => true | None => false end.
+Definition wf_entry (e : entry) : bool := all_true (e_a05 e).
+Definition wf_entries (l : list (option entry)) : bool :=
+  forallb (fun oe => match oe with Some e => wf_entry e | None => false end) l.
+(* [strict]: the header also carries a SEC code ach.NewBatch accepts (FlattenBatches drops the error of
+   NewBatch: known finding panic:ach.mergeableBatcher.Consume) *)
+Definition wf_batch_s (strict : bool) (b : batch) : bool :=
+  match b_header b with
+  | None => false
+  | Some h => (if sec_eqb (h_sec h) ADV then b_adv b else b_control b)
+              && wf_entries (b_entries b) && forallb present (b_adventries b)
+              && (negb strict || sec_valid (h_sec h))
+  end.
+Definition wf_batch := wf_batch_s false.
+Definition wf_iat_entry (e : iat_entry) : bool := all_true (ie_a17 e) && all_true (ie_a18 e).
+Definition wf_iat (b : iat_batch) : bool :=
+  present (ib_header b) && ib_control b
+  && forallb (fun oe => match oe with Some e => wf_iat_entry e | None => false end) (ib_entries b).
+Definition wf_file_s (strict : bool) (f : file) : bool :=
+  forallb (fun ob => match ob with Some b => wf_batch_s strict b | None => false end) (f_batches f)
+  && forallb wf_iat (f_iat f).
+Definition wf_file := wf_file_s false.
+(* … and every SEC code is one NewBatch accepts *)
+Definition wf_file_strict := wf_file_s true.
+
+(* which conjunct of [wf_file] a shape violates first: the class of the known finding *)
+Inductive shape_class := ShWf | ShNilBatcher | ShNilHeader | ShNilControl | ShNilEntry | ShNilAddenda
+                       | ShNilIATHeader | ShNilIATControl | ShNilIATEntry | ShNilIATAddenda.
+
+Definition batch_class (b : batch) : shape_class :=
+  match b_header b with
+  | None => ShNilHeader
+  | Some h =>
+      if negb (if sec_eqb (h_sec h) ADV then b_adv b else b_control b) then ShNilControl
+      else if negb (forallb present (b_entries b) && forallb present (b_adventries b)) then ShNilEntry
+      else if negb (wf_entries (b_entries b)) then ShNilAddenda
+      else ShWf
+  end.
+Definition iat_class (b : iat_batch) : shape_class :=
+  if negb (present (ib_header b)) then ShNilIATHeader
+  else if negb (ib_control b) then ShNilIATControl
+  else if negb (forallb present (ib_entries b)) then ShNilIATEntry
+  else if negb (wf_iat b) then ShNilIATAddenda
+  else ShWf.
+Definition first_class (l : list shape_class) : shape_class :=
+  fold_right (fun c acc => match c with ShWf => acc | _ => c end) ShWf l.
+Definition file_class (f : file) : shape_class :=
+  first_class (map (fun ob => match ob with None => ShNilBatcher | Some b => batch_class b end) (f_batches f)
+               ++ map iat_class (f_iat f)).
